@@ -101,6 +101,26 @@ func genC04(w *World, res *CheckResult) {
 		res.Obls = append(res.Obls, e.obls...)
 		res.Functions = append(res.Functions, n)
 	}
+	// (1f) typing rules that call methods of possibly-nil reflect.Types: the conditional's cells (shared with C03);
+	// line-offset table in rune units (Snippet slices contents by it; shared with C13)
+	{
+		tmp := &CheckResult{}
+		genCheckerConditional(w, tmp)
+		res.Obls = append(res.Obls, selectObls(tmp.Obls, `^checker\.ConditionalNode\[.*nil.*\]/covers-branches$`)...)
+		res.Functions = append(res.Functions, "checker.visitor.ConditionalNode")
+		if fn, ct := w.Func("file.Source.updateOffsets"), w.Contracts["file.Source.updateOffsets"]; fn != nil && ct != nil {
+			e := NewExec(w)
+			w.forceInline["file.Source.updateOffsets"] = true
+			e.VerifyFunc(fn, ct, nil)
+			delete(w.forceInline, "file.Source.updateOffsets")
+			for _, o := range e.obls {
+				if !strings.Contains(o.Name, "/safe:") {
+					res.Obls = append(res.Obls, o)
+				}
+			}
+			res.Functions = append(res.Functions, "file.Source.updateOffsets")
+		}
+	}
 	// (1d) FindSuitableOperatorOverload indexes In(1)/In(2)/Out(0) of every registered operator function without a
 	// guard: Config.Check must have rejected every function of another shape
 	{
